@@ -87,6 +87,10 @@ def isinstance_pred(I: Interp, v, cls):
             return z3.And(smt.is_ref(t), cid == TUPLE_CID)
         if n == "Enum":
             return z3.BoolVal(v.ty.k == "enum")
+        if n == "Sequence":  # typing/collections.abc Sequence: list, tuple, str
+            return z3.Or(smt.is_str(t), z3.And(smt.is_ref(t), z3.Or(cid == LIST_CID, cid == TUPLE_CID)))
+        if n in ("Mapping", "MutableMapping"):
+            return z3.And(smt.is_ref(t), cid == DICT_CID)
         raise Refuse(f"isinstance(_, {cls.name})")
     if isinstance(cls, PClass):
         ci = cls.ci
@@ -118,6 +122,26 @@ def to_int(I: Interp, v: SV, node=None) -> SV:
         st.log.append("int(any) modelled by cases; str via uninterpreted str2int")
         return SV(smt.mk_int(x), T.INT)
     raise Refuse(f"int() of {v.ty}")
+
+
+def fresh_container(I, ty):
+    """A container allocated now whose contents nothing is known about."""
+    st = I.st
+    if ty.k == "dict":
+        nr = st.new_ref(DICT_CID)
+        st.heap["dhas"] = z3.Store(st.arr("dhas"), nr, st.fresh("dc_has", smt.ArrVB))
+        st.heap["dget"] = z3.Store(st.arr("dget"), nr, st.fresh("dc_get", smt.ArrVV))
+        n = st.fresh("dc_sz", smt.I)
+        st.assume(n >= 0)
+        st.heap["dsz"] = z3.Store(st.arr("dsz"), nr, n)
+        st.heap["dkeys"] = z3.Store(st.arr("dkeys"), nr, st.fresh("dc_keys", smt.ArrIV))
+    else:
+        nr = st.new_ref(LIST_CID)
+        n = st.fresh("lc_len", smt.I)
+        st.assume(n >= 0)
+        st.heap["llen"] = z3.Store(st.arr("llen"), nr, n)
+        st.heap["lel"] = z3.Store(st.arr("lel"), nr, st.fresh("lc_el", smt.ArrIV))
+    return SV(smt.mk_ref(nr), ty)
 
 
 def call_ext(I: Interp, name: str, args, kwargs, fr: Frame, node=None):
@@ -159,6 +183,12 @@ def call_ext(I: Interp, name: str, args, kwargs, fr: Frame, node=None):
             st.heap["llen"] = z3.Store(st.arr("llen"), nr, z3.Select(st.arr("llen"), r))
             st.heap["lel"] = z3.Store(st.arr("lel"), nr, z3.Select(st.arr("lel"), r))
         return SV(smt.mk_ref(nr), ty)
+    if short == "deepcopy" and args and isinstance(args[0], SV) and T.strip_opt(args[0].ty).k in ("dict", "list"):
+        st.log.append("copy.deepcopy(container): a newly allocated container; its contents are left unconstrained (over-approximation)")
+        return fresh_container(I, T.strip_opt(args[0].ty))
+    if name == "yaml.safe_load":
+        st.log.append("yaml.safe_load(text): a newly allocated mapping with unconstrained contents (documents that are not mappings are not modelled)")
+        return fresh_container(I, T.DICT(T.STR, T.ANY))
     if short == "deepcopy" or name == "copy.copy":
         raise Refuse("copy/deepcopy")
     if name in ("random.randint",):
